@@ -82,7 +82,18 @@ def make_coalescent(pg, cfg, **over):
         pbar=False,
     )
     if cfg.get('loci', 1) == 2:
-        kw['loci'] = pg.LocusConfig(n=2, n_unlinked=cfg.get('n_unl', 0), recombination_rate=cfg.get('r', 0))
+        # the three documented ways of asking for two loci (deterministic in the configuration, so that a replay takes the same
+        # route): everything inside the LocusConfig; LocusConfig + separate recombination_rate keyword; loci=2 + keyword
+        r, nu = cfg.get('r', 0), cfg.get('n_unl', 0)
+        route = cfg.get('loci_route', int(round(float(r) * 8)) + int(nu) + sum(cfg['n'].values())) % 3
+        if route == 1:
+            kw['loci'] = pg.LocusConfig(n=2, n_unlinked=nu)
+            kw['recombination_rate'] = r
+        elif route == 2 and nu == 0:
+            kw['loci'] = 2
+            kw['recombination_rate'] = r
+        else:
+            kw['loci'] = pg.LocusConfig(n=2, n_unlinked=nu, recombination_rate=r)
     if cfg.get('end_time') is not None:
         kw['end_time'] = cfg['end_time']
     if cfg.get('start_time'):
